@@ -303,6 +303,9 @@ def run_shard(shard):
                     y = TimelineSVG(copy.deepcopy(dy), {"direction": "right"})
                     got_y = y.export().decode("latin-1")
                     got_x = x.export().decode("latin-1")
+            except Hang:
+                acc.violation({"pair": [nx, ny], "order": order}, "HANG", "pair %s,%s did not return" % (nx, ny), order=(0, shard["first"]))
+                continue
             except Exception as e:
                 acc.violation({"pair": [nx, ny], "order": order}, "EXC:" + type(e).__name__, "pair %s,%s raised %r" % (nx, ny, e),
                               order=(0, shard["first"]))
